@@ -506,6 +506,22 @@ def splice_fn(repo, file, item_path, sections, trait=None, nth=0, opts=(), canar
                     dropped.append('%s:%d `for %s in ITER%s` written as the loop over ITER that skips (`continue`) an element failing the test (X2h)' % (
                         file, toks[kw].line, pat, ''.join('.filter(|%s| %s)' % t for t in tests)))
                     pat = 'cv_f%d' % n
+            # `//@loop N iter`: X7 for the iterator expression of THIS loop (what is left of it after X2h), addressed by the loop's ordinal
+            # because the same text may occur elsewhere in the function.  First line: the expected text (else the anchor is lost);
+            # the rest: the environment call that stands for it.
+            lk = 'loop %d iter' % n
+            if lk in sections:
+                parts = sections[lk].strip().split('\n', 1)
+                if len(parts) != 2:
+                    raise AnchorLost('template: //@%s needs the expected text on its first line and the replacement after it' % lk)
+                want_i = [t.text for t in rs.tokenize(parts[0]) if t.kind not in ('ws', 'comment', 'doc')]
+                if [toks[j].text for j in code] != want_i:
+                    raise AnchorLost('%s: iterator expression of loop %d is `%s`, the unit expects `%s`' % (
+                        item_path, n, ' '.join(toks[j].text for j in code), ' '.join(want_i)))
+                ed.replace(code[0], code[-1], parts[1].strip())
+                rules['X7-replace'] = rules.get('X7-replace', 0) + 1
+                dropped.append('%s:%d statement replaced by an assumed environment call (X7): %s' % (file, toks[code[0]].line, parts[0].strip()))
+                code = [code[0]]
             # a loop label (`'outer: for ..`) moves with the loop: it is re-attached to the `while let`
             label = ''
             prev = [j for j in range(max(0, kw - 8), kw) if toks[j].kind not in ('ws', 'comment', 'doc')]
@@ -935,6 +951,8 @@ def splice_fn(repo, file, item_path, sections, trait=None, nth=0, opts=(), canar
                 ed.ins_before(lopen, '\n' + text)
             elif what == 'body_start':
                 ed.ins_after(lopen, '\n' + text)
+            elif what == 'iter':
+                pass        # handled with the loop header (X2c)
             elif what == 'body_first':
                 # ghost code that must run for EVERY element the iterator yields, ahead of the tests rule X2h places at the body's start
                 ed.after.setdefault(lopen, []).insert(0, '\n' + text)
